@@ -309,7 +309,8 @@ FlattenKidsFI(C, r, ks, i) ==
                  ELSE ExplicitTrade(C, r, k, RNeg(r.st.pos[k]), NaN)
        IN  FlattenKidsFI(C, r2, ks, i + 1)
 
-WouldBankrupt(C, st) == ~C.fi[Root] /\ ~st.bankrupt /\ RSign(Val(C, st, Root)) = -1
+\* (before the first update - t = 0 - nothing is ever flagged)
+WouldBankrupt(C, st) == st.t > 0 /\ ~C.fi[Root] /\ ~st.bankrupt /\ RSign(Val(C, st, Root)) = -1
 
 RefreshR(C, r) ==
   LET s1 == Accrue(C, Snap(C, r.st))
